@@ -100,6 +100,8 @@ class StackModel(object):
             return self._behave(b[2], st)
         if k == "echo":
             return V(["echo"])
+        if k == "badstr":
+            return V(["c", st["fn"], st["inv"] - 1])
         raise ValueError("model: unsupported callable behaviour %r" % (b,))
 
     def _eval(self, i, st, top=False):
